@@ -256,7 +256,7 @@ class Exec:
     def op_adj_dict(self, op):
         adj = {}
         for key, vals in op["adj"]:
-            adj[self.g(key)] = self.gs(vals)
+            adj[self.g(key)] = self.as_kind(self.gs(vals), op.get("vals_as"))
         kw = {}
         if op.get("cls") is not None:
             kw["linktype"] = C.EDGE_CLASSES[op["cls"]]
@@ -267,6 +267,9 @@ class Exec:
     def op_adj_matrix(self, op):
         matrix = [[decode_cell(c) for c in row] for row in op["matrix"]]
         verts = self.gs(op["verts"])
+        if op.get("rows_as") == "tuple":
+            matrix = tuple(tuple(r) for r in matrix)
+            verts = tuple(verts)
         kw = {}
         if op.get("cls") is not None:
             kw["linktype"] = C.EDGE_CLASSES[op["cls"]]
